@@ -133,7 +133,7 @@ def benign_diff(kr, o):
 
 
 def run(ctx):
-    pr = ctx.prove()
+    pr = ctx.prove(extra_targets=["ChainDB/Corr.vo"])
     ctx.cov["trusted_base"] = ["Coq 8.16.1 kernel + vm_compute", "Go toolchain + overlay", "journaling KV store + engine (harness/engines/chaindb)",
                                "atomicity of committed transactions / flushed bulks below db.DB", "consensus stub (LIB 0 after restart)"]
     ctx.assumptions = ["a committed DB transaction, a flushed bulk and a single Set are atomic and durable in issue order across both stores",
